@@ -15,7 +15,7 @@ PATHS = [None, None, '', 'out/act.txt', '/abs/dir/ref.txt', 'name', 'dir/', 'a//
          '.hidden', 'a/b/', 'ref/STDOUT', '/', 'x/actual-raw-y']
 DIRS = ['/t/tmp', '/t/tmp/', 'rel/tmp', '/', 'x', '/t//', 'é dir']
 SETD = [ABSENT, None, '', '/conf/tmp', 'rel/tmp']
-ENVS = [None, '', '/e/fail']
+ENVS = [None, '', '/e/fail', 'rel/fail']      # (a relative directory is relative to where the tests run)
 SYS = '/sys/tmp'
 
 
